@@ -66,7 +66,7 @@ type roPair struct {
 func roOp(t *sim.Tape, uniq string) fsx.Op {
 	kinds := []string{
 		"Stat", "Lstat", "ReadDir", "ReadFile", "Readlink", "EvalSymlinks", "Getwd", "Glob", "WalkDir", "Open", "OpenFile", "FRead", "FReadAt", "FSeek",
-		"FStat", "FReadDir", "FReaddirnames", "FClose", "FName", "Exists", "IsEmpty",
+		"FStat", "FReadDir", "FReaddirnames", "FClose", "FName", "Exists", "IsEmpty", "TempDir", "TempDir",
 		"Mkdir", "MkdirAll", "Remove", "RemoveAll", "Rename", "Link", "Symlink", "Truncate", "Chmod", "Chown", "Lchown", "Chtimes", "WriteFile", "Create",
 		"CreateTemp", "MkdirTemp", "FWrite", "FWriteAt", "FWriteString", "FTruncate", "FChmod", "FChown", "FSync", "Sub", "Chdir",
 	}
